@@ -419,9 +419,10 @@ def forward_signatures(func, calls, args, kwargs, sig):
         try:
             fwdargsvals.extend(rn(fwdvarargs))
             fwdkwargsvals.update(rn(fwdvarkwargs))
-        except TypeError:
+        except (TypeError, ValueError):
             # a star argument that currently holds something that cannot be
-            # unpacked (e.g. an attribute still set to None)
+            # unpacked (e.g. an attribute still set to None, or a string
+            # where a mapping is expected)
             raise UnknownForwards
         using_partial = wrapped_func == functools.partial
         if using_partial:
